@@ -293,11 +293,15 @@ PROPS = {
         trusted=['Go regexp (match locations are taken from the implementation run and checked for well-formedness)',
                  'strconv.Atoi outside small numbers'],
         level_text='Lean 4 theorems for all lines: AWK / literal / regex (any well-formed location list) splitting '
-                   'partitions the line and each field carries the character offset of what precedes it. Model tied to '
+                   'partitions the line and each field carries the character offset of what precedes it; for every field list and '
+                   'every documented index expression (N, A..B, A.., ..B, .. with bounds of any sign and magnitude) Transform yields '
+                   'the concatenation of exactly the fields the expression denotes (nothing when empty or out of range), including '
+                   'the normalisations newRange applies. Model tied to '
                    '/repo by differential runs of Tokenize / Transform / ParseRange / StripLastDelimiter; an independent '
                    'spec (documented index expressions resolved against the field count) judges every transformed token.',
-        level_note='Partial: Transform = documented selection for ALL inputs is checked per case against the spec, not yet '
-                   'a Lean theorem. Trusted: Lean kernel, standard axioms, harness, Go regexp.',
+        level_note='Partial: ParseRange = the documented grammar is shown on kernel-evaluated instances and checked per case, not '
+                   'proved as one equation; the prefix length of a transformed token is checked per case. Trusted: Lean kernel, '
+                   'standard axioms, harness, Go regexp.',
         technique='Lean 4 proof (partition and offset theorems by induction) + model/implementation correspondence with spec oracle',
     ),
     'C11': dict(
